@@ -53,6 +53,12 @@ RAW_SCRIPTS = {
     "raw-param-outlives-global": "hist = [1, 2, 3, 4]\ndef peek(xs, n):\n    global hist\n    hist = [9, 9, 9, 9]\n    return xs[n - 1]\ndef rebind_then_sum(xs):\n    global hist\n"
                                  "    hist = [7, 7, 7, 7]\n    t = 0\n    for q in range(len(xs)):\n        t += xs[q]\n    return t\nwhile True:\n    hist = [1, 2, 3, 4]\n"
                                  "    mon.write(peek(hist, 4))\n    mon.write(hist[0])\n    hist = [5, 6, 7, 8]\n    mon.write(rebind_then_sum(hist))\n    mon.write(hist[1])\n",
+    # helpers that return a LOCAL list whose name is also a file-scope variable; negative subscripts of temporaries (a helper's
+    # result, a comprehension, a list display)
+    "raw-returned-local-shadows-global": "out = [0, 0]\nacc = [1]\ndef pair(n):\n    out = [n]\n    out.append(n + 1)\n    return out\ndef grow(n):\n    acc = [n, n]\n    acc.append(n * 2)\n    return acc\n"
+                                         "while True:\n    p = pair(3)\n    mon.write(p[0] + p[1])\n    q = grow(2)\n    mon.write(q[2] + out[0] + acc[0])\n    mon.write(pair(5)[1])\n",
+    "raw-negative-index-of-temporaries": "def pair(n):\n    return [n, n + 1, n + 2]\nwhile True:\n    last = pair(4)[-1]\n    mon.write(last)\n    sq = [i * i for i in range(4)][-2]\n    mon.write(sq)\n"
+                                         "    mon.write([7, 8, 9][-3])\n    mon.write(pair(1)[-2] + pair(2)[0])\n",
     "raw-reassign-then-grow-and-shrink": "buf = [4, 5, 6]\nwhile True:\n    buf = [9, 8, 7]\n    buf.append(1)\n    buf.append(2)\n    mon.write(buf[0] + buf[4])\n    buf.remove(1)\n    buf.remove(2)\n",
 }
 
